@@ -12,6 +12,8 @@ import RdfModel.Props.C06Sites
 #print axioms RdfModel.C05X.latch_all_decoders
 #print axioms RdfModel.C05X.latch_buffered
 #print axioms RdfModel.C05X.latch_needs_guard
+#print axioms RdfModel.C05X.latch_needs_quiet_absorbing
+#print axioms RdfModel.C05X.C05LifeCycleFull_needs_hypothesis
 #print axioms RdfModel.C06X.emit_sites_static
 #print axioms RdfModel.C06X.emit_sites_understood
 #print axioms RdfModel.C06X.emit_sites_cover_packages
